@@ -1,6 +1,1176 @@
-//! io scenario (placeholder until implemented)
-use crate::exec::Outcome;
-use crate::script::Script;
-pub fn run(_s: &Script, _k: bool) -> Outcome { crate::harness_fail("io scenario not built".into()) }
-pub fn run_transports(_s: &Script, _k: bool) -> Outcome { crate::harness_fail("io scenario not built".into()) }
-pub fn gen_io(_seed: u64, _prop: &str, _run: u64) -> Script { unimplemented!() }
+//! The `io` scenario (C14, C16; also feeds C04/C17/C18): a byte buffer used as a lossy pipe
+//! between a producer and a consumer, driven through `std::io`, `embedded_io` or
+//! `embedded_io_async` (own poll-once executor), with faulty stream peers for the provided
+//! methods layered on the crate's required ones. The step order of a script *is* the task
+//! schedule (producer runs / consumer runs / stalls are chosen by the seeded generator).
+
+use crate::elem::{window, HookScope, PanicKind};
+use crate::exec::{cls, Failure, Outcome, Probe, RunStats, Trace};
+use crate::rng::{mix, Rng};
+use crate::script::{Garbage, Op, Scenario, Script, Step};
+use circular_buffer::CircularBuffer;
+use std::collections::VecDeque;
+use std::fmt::Write as _;
+
+pub const IO_NS: [usize; 9] = [0, 1, 2, 3, 4, 5, 8, 16, 64];
+
+pub fn run(script: &Script, keep_trace: bool) -> Outcome {
+    match script.n {
+        0 => run_n::<0>(script, keep_trace),
+        1 => run_n::<1>(script, keep_trace),
+        2 => run_n::<2>(script, keep_trace),
+        3 => run_n::<3>(script, keep_trace),
+        4 => run_n::<4>(script, keep_trace),
+        5 => run_n::<5>(script, keep_trace),
+        8 => run_n::<8>(script, keep_trace),
+        16 => run_n::<16>(script, keep_trace),
+        64 => run_n::<64>(script, keep_trace),
+        n => crate::harness_fail(format!("capacity {n} is not compiled for the io scenario")),
+    }
+}
+
+pub fn transports_compiled() -> Vec<u8> {
+    let mut v = vec![0u8];
+    if cfg!(feature = "eio") {
+        v.push(1);
+    }
+    if cfg!(feature = "eioa") {
+        v.push(2);
+    }
+    v
+}
+
+/// C16: the same script through every compiled transport; traces must be identical.
+pub fn run_transports(script: &Script, keep_trace: bool) -> Outcome {
+    let mut s0 = script.clone();
+    s0.transport = 0;
+    let base = run(&s0, keep_trace);
+    if base.failure.is_some() {
+        return base;
+    }
+    let ts = transports_compiled();
+    if ts.len() < 2 {
+        return crate::harness_fail("transports mode needs a build with feature eio and/or eioa".into());
+    }
+    let mut total = base;
+    for t in ts.into_iter().skip(1) {
+        let mut s = script.clone();
+        s.transport = t;
+        let o = run(&s, keep_trace);
+        total.stats.steps += o.stats.steps;
+        if let Some(mut f) = o.failure {
+            f.msg = format!("[transport {}] {}", tname(t), f.msg);
+            if f.classes & cls::HARNESS == 0 {
+                f.classes |= cls::EIO;
+            }
+            total.failure = Some(f);
+            total.trace = o.trace;
+            return total;
+        }
+        if o.digest != total.digest {
+            total.failure = Some(Failure {
+                step: script.steps.len(),
+                classes: cls::EIO,
+                op: Op::IoWrite,
+                msg: format!("trace through {} differs from the std::io trace (digest {:016x} vs {:016x})", tname(t), o.digest, total.digest),
+            });
+            total.trace = o.trace;
+            return total;
+        }
+    }
+    total
+}
+
+fn tname(t: u8) -> &'static str {
+    match t {
+        0 => "std::io",
+        1 => "embedded_io",
+        _ => "embedded_io_async",
+    }
+}
+
+// ------------------------------------------------------------------ executor for async calls
+#[cfg(feature = "eioa")]
+mod exec1 {
+    use std::future::Future;
+    use std::pin::pin;
+    use std::task::{Context, Poll, RawWaker, RawWakerVTable, Waker};
+
+    fn raw() -> RawWaker {
+        fn no(_: *const ()) {}
+        fn cl(_: *const ()) -> RawWaker {
+            raw()
+        }
+        static VT: RawWakerVTable = RawWakerVTable::new(cl, no, no, no);
+        RawWaker::new(std::ptr::null(), &VT)
+    }
+
+    /// Polls the future exactly once with a no-op waker. `None` = it returned `Pending`.
+    pub fn poll_once<F: Future>(f: F) -> Option<F::Output> {
+        let w = unsafe { Waker::from_raw(raw()) };
+        let mut cx = Context::from_waker(&w);
+        let mut f = pin!(f);
+        match f.as_mut().poll(&mut cx) {
+            Poll::Ready(v) => Some(v),
+            Poll::Pending => None,
+        }
+    }
+}
+
+// ------------------------------------------------------------------ faulty peers (seam S6)
+pub struct FaultyReader {
+    data: Vec<u8>,
+    pos: usize,
+    plan: Vec<u32>,
+    pi: usize,
+    pub delivered: usize,
+    pub interrupts: u32,
+    pub failed: bool,
+    streak: u32,
+}
+
+impl std::io::Read for FaultyReader {
+    fn read(&mut self, dst: &mut [u8]) -> std::io::Result<usize> {
+        let _h = HookScope::enter();
+        let rem = self.data.len() - self.pos;
+        if rem == 0 || dst.is_empty() {
+            return Ok(0);
+        }
+        let p = if self.plan.is_empty() { 7 } else { self.plan[self.pi % self.plan.len()] };
+        self.pi += 1;
+        let n = match p % 8 {
+            5 if self.streak < 3 => {
+                // EINTR is transient: never more than three in a row
+                self.interrupts += 1;
+                self.streak += 1;
+                return Err(std::io::Error::from(std::io::ErrorKind::Interrupted));
+            }
+            6 if (p / 8) % 3 == 0 => {
+                self.failed = true;
+                return Err(std::io::Error::new(std::io::ErrorKind::Other, "injected upstream failure"));
+            }
+            0..=4 => (1 + (p / 8) as usize % 9).min(rem).min(dst.len()),
+            _ => rem.min(dst.len()),
+        };
+        self.streak = 0;
+        dst[..n].copy_from_slice(&self.data[self.pos..self.pos + n]);
+        self.pos += n;
+        self.delivered += n;
+        Ok(n)
+    }
+}
+
+pub struct FaultyWriter {
+    pub received: Vec<u8>,
+    plan: Vec<u32>,
+    pi: usize,
+    pub shorts: u32,
+    pub interrupts: u32,
+    streak: u32,
+}
+
+impl std::io::Write for FaultyWriter {
+    fn write(&mut self, src: &[u8]) -> std::io::Result<usize> {
+        let _h = HookScope::enter();
+        if src.is_empty() {
+            return Ok(0);
+        }
+        let p = if self.plan.is_empty() { 7 } else { self.plan[self.pi % self.plan.len()] };
+        self.pi += 1;
+        let n = match p % 8 {
+            5 if self.streak < 3 => {
+                self.interrupts += 1;
+                self.streak += 1;
+                return Err(std::io::Error::from(std::io::ErrorKind::Interrupted));
+            }
+            6 if (p / 8) % 3 == 0 => return Err(std::io::Error::new(std::io::ErrorKind::Other, "injected downstream failure")),
+            4 if (p / 8) % 4 == 0 => return Ok(0),
+            0..=3 => {
+                self.shorts += 1;
+                (1 + (p / 8) as usize % 5).min(src.len())
+            }
+            _ => src.len(),
+        };
+        self.streak = 0;
+        self.received.extend_from_slice(&src[..n]);
+        Ok(n)
+    }
+    fn flush(&mut self) -> std::io::Result<()> {
+        Ok(())
+    }
+}
+
+struct IoEx<const N: usize> {
+    buf: Box<CircularBuffer<N, u8>>,
+    model: VecDeque<u8>,
+    produced: u64,
+    trace: Trace,
+    fail: Option<Failure>,
+    stats: RunStats,
+    transport: u8,
+    garbage: Garbage,
+    grng: Rng,
+    allocs: u32,
+    cur: usize,
+    cur_op: Op,
+    panicked: bool,
+}
+
+fn run_n<const N: usize>(script: &Script, keep_trace: bool) -> Outcome {
+    crate::elem::H.with(|h| h.borrow_mut().reset());
+    let _ = crate::alloc::take_op_allocs();
+    crate::alloc::set_fresh(true, (script.garbage_seed as u8) | 1);
+    if !transports_compiled().contains(&script.transport) {
+        return crate::harness_fail(format!("transport {} is not compiled into this build", script.transport));
+    }
+    let buf: Box<CircularBuffer<N, u8>> = {
+        #[cfg(feature = "alloc")]
+        {
+            if script.boxed {
+                CircularBuffer::<N, u8>::boxed()
+            } else {
+                Box::new(CircularBuffer::new())
+            }
+        }
+        #[cfg(not(feature = "alloc"))]
+        {
+            Box::new(CircularBuffer::new())
+        }
+    };
+    let mut ex = IoEx::<N> {
+        buf,
+        model: VecDeque::new(),
+        produced: 0,
+        trace: Trace::new(keep_trace),
+        fail: None,
+        stats: RunStats::new(),
+        transport: script.transport,
+        garbage: script.garbage,
+        grng: Rng::new(script.garbage_seed ^ 0x1f83d9abfb41bd6b),
+        allocs: 0,
+        cur: 0,
+        cur_op: Op::IoWrite,
+        panicked: false,
+    };
+    ex.poison();
+    for (i, st) in script.steps.iter().enumerate() {
+        ex.step(i, st);
+        if ex.fail.is_some() {
+            break;
+        }
+    }
+    crate::alloc::set_fresh(false, 0);
+    Outcome { digest: ex.trace.fnv.0, failure: ex.fail.take(), stats: ex.stats, trace: ex.trace.text.take() }
+}
+
+/// Result of one transport call: Ok(value) / Err(description) / Pending.
+enum Tr<T> {
+    Ok(T),
+    Err(String),
+    #[allow(dead_code)]
+    Pending,
+}
+
+impl<const N: usize> IoEx<N> {
+    fn fail(&mut self, classes: u32, msg: String) {
+        if self.fail.is_none() {
+            self.fail = Some(Failure { step: self.cur, classes, op: self.cur_op, msg });
+        }
+    }
+
+    fn own(&self) -> u32 {
+        if self.transport == 0 {
+            cls::IO
+        } else {
+            cls::EIO
+        }
+    }
+
+    fn stamp(&mut self, k: usize) -> Vec<u8> {
+        let v: Vec<u8> = (0..k as u64).map(|i| ((self.produced + i) % 251) as u8).collect();
+        self.produced += k as u64;
+        v
+    }
+
+    fn model_write(&mut self, src: &[u8]) {
+        if !self.model.is_empty() && self.model.len() + src.len() > N && !src.is_empty() {
+            self.stats.probe(Probe::IoWriterLapsReader);
+        }
+        for b in src {
+            if N == 0 {
+                break;
+            }
+            if self.model.len() == N {
+                self.model.pop_front();
+            }
+            self.model.push_back(*b);
+        }
+    }
+
+    /// Runs one crate call in an operation window; an unwinding call is a violation
+    /// ("none of these ever ... panics").
+    fn call<R>(&mut self, f: impl FnOnce(&mut CircularBuffer<N, u8>) -> R) -> Option<R> {
+        let b: &mut CircularBuffer<N, u8> = &mut self.buf;
+        let r = window(|| f(b));
+        self.allocs += crate::alloc::take_op_allocs();
+        match r {
+            Ok(v) => Some(v),
+            Err(PanicKind::Injected(_)) => {
+                self.fail(cls::HARNESS, "injected fault in the io scenario".into());
+                None
+            }
+            Err(PanicKind::Other(m)) => {
+                self.panicked = true;
+                let own = self.own();
+                self.fail(own | cls::PANIC_SPEC, format!("{} panicked: {m}", self.cur_op.name()));
+                None
+            }
+        }
+    }
+
+    // ---- the five required methods through the selected transport
+    fn t_write(&mut self, src: &[u8]) -> Option<Tr<usize>> {
+        match self.transport {
+            0 => self.call(|b| match std::io::Write::write(b, src) {
+                Ok(n) => Tr::Ok(n),
+                Err(e) => Tr::Err(e.to_string()),
+            }),
+            #[cfg(feature = "eio")]
+            1 => self.call(|b| match embedded_io::Write::write(b, src) {
+                Ok(n) => Tr::Ok(n),
+                Err(e) => match e {},
+            }),
+            #[cfg(feature = "eioa")]
+            2 => self.call(|b| match exec1::poll_once(embedded_io_async::Write::write(b, src)) {
+                Some(Ok(n)) => Tr::Ok(n),
+                Some(Err(e)) => match e {},
+                None => Tr::Pending,
+            }),
+            _ => None,
+        }
+    }
+
+    fn t_flush(&mut self) -> Option<Tr<()>> {
+        match self.transport {
+            0 => self.call(|b| match std::io::Write::flush(b) {
+                Ok(()) => Tr::Ok(()),
+                Err(e) => Tr::Err(e.to_string()),
+            }),
+            #[cfg(feature = "eio")]
+            1 => self.call(|b| match embedded_io::Write::flush(b) {
+                Ok(()) => Tr::Ok(()),
+                Err(e) => match e {},
+            }),
+            #[cfg(feature = "eioa")]
+            2 => self.call(|b| match exec1::poll_once(embedded_io_async::Write::flush(b)) {
+                Some(Ok(())) => Tr::Ok(()),
+                Some(Err(e)) => match e {},
+                None => Tr::Pending,
+            }),
+            _ => None,
+        }
+    }
+
+    fn t_read(&mut self, dst: &mut [u8]) -> Option<Tr<usize>> {
+        match self.transport {
+            0 => self.call(|b| match std::io::Read::read(b, dst) {
+                Ok(n) => Tr::Ok(n),
+                Err(e) => Tr::Err(e.to_string()),
+            }),
+            #[cfg(feature = "eio")]
+            1 => self.call(|b| match embedded_io::Read::read(b, dst) {
+                Ok(n) => Tr::Ok(n),
+                Err(e) => match e {},
+            }),
+            #[cfg(feature = "eioa")]
+            2 => self.call(|b| match exec1::poll_once(embedded_io_async::Read::read(b, dst)) {
+                Some(Ok(n)) => Tr::Ok(n),
+                Some(Err(e)) => match e {},
+                None => Tr::Pending,
+            }),
+            _ => None,
+        }
+    }
+
+    /// fill_buf: returns a copy of the returned slice.
+    fn t_fill_buf(&mut self) -> Option<Tr<Vec<u8>>> {
+        fn cp(s: &[u8]) -> Vec<u8> {
+            let _h = HookScope::enter();
+            s.to_vec()
+        }
+        match self.transport {
+            0 => self.call(|b| match std::io::BufRead::fill_buf(b) {
+                Ok(s) => Tr::Ok(cp(s)),
+                Err(e) => Tr::Err(e.to_string()),
+            }),
+            #[cfg(feature = "eio")]
+            1 => self.call(|b| match embedded_io::BufRead::fill_buf(b) {
+                Ok(s) => Tr::Ok(cp(s)),
+                Err(e) => match e {},
+            }),
+            #[cfg(feature = "eioa")]
+            2 => self.call(|b| match exec1::poll_once(embedded_io_async::BufRead::fill_buf(b)) {
+                Some(Ok(s)) => Tr::Ok(cp(s)),
+                Some(Err(e)) => match e {},
+                None => Tr::Pending,
+            }),
+            _ => None,
+        }
+    }
+
+    fn t_consume(&mut self, k: usize) -> Option<()> {
+        match self.transport {
+            0 => self.call(|b| std::io::BufRead::consume(b, k)),
+            #[cfg(feature = "eio")]
+            1 => self.call(|b| embedded_io::BufRead::consume(b, k)),
+            #[cfg(feature = "eioa")]
+            2 => self.call(|b| embedded_io_async::BufRead::consume(b, k)),
+            _ => None,
+        }
+    }
+
+    /// Unwraps a transport result that must be Ok.
+    fn must<T>(&mut self, r: Option<Tr<T>>, what: &str) -> Option<T> {
+        match r? {
+            Tr::Ok(v) => Some(v),
+            Tr::Err(e) => {
+                let own = self.own();
+                self.fail(own, format!("{what} returned an error: {e}"));
+                None
+            }
+            Tr::Pending => {
+                self.fail(cls::EIO, format!("{what} returned Poll::Pending on the first poll"));
+                None
+            }
+        }
+    }
+
+    fn model_vec(&self) -> Vec<u8> {
+        self.model.iter().copied().collect()
+    }
+
+    fn step(&mut self, i: usize, st: &Step) {
+        self.cur = i;
+        self.cur_op = st.op;
+        self.allocs = 0;
+        self.panicked = false;
+        self.stats.steps += 1;
+        let own = self.own();
+        let pre_layout = self.buf.verif_layout();
+        let pre_len = self.model.len();
+        let _ = write!(self.trace.line(), "{} {}", i, st.op.name());
+        if N == 0 {
+            self.stats.probe(Probe::ZeroCapOp);
+        }
+        let mut may_alloc = false;
+        let mut argclass = 0u64;
+        match st.op {
+            Op::IoWrite | Op::IoWriteAll | Op::IoWriteFmt | Op::IoExtendRef | Op::IoLayout => {
+                let k = st.a;
+                argclass = lencls(k, N - pre_len.min(N), N);
+                let data = if st.op == Op::IoWriteFmt {
+                    // write!() goes through UTF-8 text: keep it ASCII
+                    let v: Vec<u8> = (0..k as u64).map(|i| b'a' + ((self.produced + i) % 26) as u8).collect();
+                    self.produced += k as u64;
+                    v
+                } else {
+                    self.stamp(k)
+                };
+                match st.op {
+                    Op::IoWrite | Op::IoLayout => {
+                        let r = self.t_write(&data);
+                        if let Some(n) = self.must(r, "write") {
+                            let _ = write!(self.trace.line(), " r={n}");
+                            if n != k {
+                                self.fail(own, format!("write of {k} bytes reported {n}"));
+                            }
+                            self.model_write(&data);
+                        }
+                        if st.op == Op::IoLayout {
+                            // consume the same amount again from the front: rotates the layout
+                            let mut dst = vec![0u8; st.b];
+                            let r = self.t_read(&mut dst);
+                            if let Some(n) = self.must(r, "read") {
+                                for _ in 0..n {
+                                    self.model.pop_front();
+                                }
+                            }
+                        }
+                    }
+                    Op::IoWriteAll => {
+                        if self.transport == 0 {
+                            let r = self.call(|b| std::io::Write::write_all(b, &data).map_err(|e| e.to_string()));
+                            if let Some(r) = r {
+                                if let Err(e) = r {
+                                    self.fail(own, format!("write_all returned an error: {e}"));
+                                }
+                                self.model_write(&data);
+                            }
+                        } else {
+                            self.eio_write_all(&data);
+                        }
+                    }
+                    Op::IoWriteFmt => {
+                        let s = String::from_utf8(data.clone()).unwrap_or_default();
+                        let r = self.call(|b| std::io::Write::write_fmt(b, format_args!("{s}")).map_err(|e| e.to_string()));
+                        if let Some(r) = r {
+                            if let Err(e) = r {
+                                self.fail(own, format!("write! returned an error: {e}"));
+                            }
+                            self.model_write(&data);
+                        }
+                    }
+                    _ => {
+                        let r = self.call(|b| b.extend(data.iter()));
+                        if r.is_some() {
+                            self.model_write(&data);
+                        }
+                    }
+                }
+            }
+            Op::IoWriteVectored => {
+                let parts = [self.stamp(st.a), self.stamp(st.b), self.stamp(st.c)];
+                let cat: Vec<u8> = parts.iter().flatten().copied().collect();
+                let r = self.call(|b| {
+                    let ios = [std::io::IoSlice::new(&parts[0]), std::io::IoSlice::new(&parts[1]), std::io::IoSlice::new(&parts[2])];
+                    std::io::Write::write_vectored(b, &ios).map_err(|e| e.to_string())
+                });
+                if let Some(r) = r {
+                    match r {
+                        Err(e) => self.fail(own, format!("write_vectored returned an error: {e}")),
+                        Ok(n) => {
+                            let _ = write!(self.trace.line(), " r={n}");
+                            if n > cat.len() || (n == 0 && !cat.is_empty()) {
+                                self.fail(own, format!("write_vectored of {} bytes reported {}", cat.len(), n));
+                            } else {
+                                self.model_write(&cat[..n]);
+                                // the stream position continues after what was accepted
+                                self.produced -= (cat.len() - n) as u64;
+                            }
+                        }
+                    }
+                }
+            }
+            Op::IoFlush => {
+                let r = self.t_flush();
+                let _ = self.must(r, "flush");
+            }
+            Op::IoCopyIn => {
+                may_alloc = false;
+                let data = self.stamp(st.a);
+                let mut up = FaultyReader { data, pos: 0, plan: st.vals.clone(), pi: 0, delivered: 0, interrupts: 0, failed: false, streak: 0 };
+                let r = self.call(|b| std::io::copy(&mut up, b).map_err(|e| e.kind()));
+                if up.interrupts > 0 {
+                    self.stats.probe(Probe::IoCopyRetryInterrupted);
+                }
+                if let Some(r) = r {
+                    let delivered: Vec<u8> = up.data[..up.delivered].to_vec();
+                    self.produced -= (up.data.len() - up.delivered) as u64;
+                    match r {
+                        Ok(n) => {
+                            let _ = write!(self.trace.line(), " r={n}");
+                            if n as usize != up.delivered || up.failed {
+                                self.fail(own, format!("io::copy into the buffer reported {n} bytes, upstream delivered {}", up.delivered));
+                            }
+                        }
+                        Err(k) => {
+                            let _ = write!(self.trace.line(), " r=err");
+                            if !up.failed {
+                                self.fail(own, format!("io::copy into the buffer failed ({k:?}) although upstream did not fail: the buffer's write must never fail"));
+                            }
+                        }
+                    }
+                    self.model_write(&delivered);
+                }
+            }
+            Op::IoRead | Op::IoTake => {
+                let k = st.a;
+                argclass = lencls(k, pre_len, N);
+                if pre_len == 0 {
+                    self.stats.probe(Probe::IoReadEmpty);
+                }
+                if k < pre_len {
+                    self.stats.probe(Probe::IoReadShortDst);
+                }
+                let mut dst = vec![0xEEu8; k];
+                let (got, limit) = if st.op == Op::IoRead {
+                    let r = self.t_read(&mut dst);
+                    (self.must(r, "read"), k)
+                } else {
+                    let lim = st.b;
+                    let r = self.call(|b| std::io::Read::read(&mut std::io::Read::take(b, lim as u64), &mut dst).map_err(|e| e.to_string()));
+                    (
+                        match r {
+                            Some(Ok(n)) => Some(n),
+                            Some(Err(e)) => {
+                                self.fail(own, format!("take().read() returned an error: {e}"));
+                                None
+                            }
+                            None => None,
+                        },
+                        k.min(lim),
+                    )
+                };
+                if let Some(n) = got {
+                    let want = limit.min(pre_len);
+                    let _ = write!(self.trace.line(), " r={n}");
+                    let front: Vec<u8> = self.model.iter().take(want).copied().collect();
+                    if n != want {
+                        self.fail(own, format!("read into {limit} bytes with {pre_len} buffered returned {n}, expected {want}"));
+                    } else if dst[..n] != front[..] {
+                        self.fail(own, format!("read delivered {:?}, the front of the buffer is {:?}", &dst[..n], front));
+                    } else if dst[n..].iter().any(|b| *b != 0xEE) {
+                        self.fail(own, "read wrote beyond the count it reported".into());
+                    }
+                    for _ in 0..n.min(self.model.len()) {
+                        self.model.pop_front();
+                    }
+                }
+            }
+            Op::IoReadExact => {
+                let k = st.a;
+                argclass = lencls(k, pre_len, N);
+                let mut dst = vec![0xEEu8; k];
+                let old = self.model_vec();
+                let res: Option<Result<(), ()>> = if self.transport == 0 {
+                    self.call(|b| std::io::Read::read_exact(b, &mut dst).map_err(|_| ()))
+                } else {
+                    self.eio_read_exact(&mut dst)
+                };
+                if let Some(r) = res {
+                    let _ = write!(self.trace.line(), " r={}", r.is_ok() as u8);
+                    if k <= pre_len {
+                        if r.is_err() {
+                            self.fail(own, format!("read_exact({k}) failed with {pre_len} bytes buffered"));
+                        } else if dst[..] != old[..k] {
+                            self.fail(own, format!("read_exact delivered {:?}, expected {:?}", dst, &old[..k]));
+                        }
+                        for _ in 0..k {
+                            self.model.pop_front();
+                        }
+                    } else if r.is_ok() {
+                        self.fail(own, format!("read_exact({k}) succeeded with only {pre_len} bytes buffered"));
+                    } else {
+                        // UnexpectedEof: how much was consumed is unspecified; what remains must
+                        // be a suffix of the old contents
+                        self.resync_suffix(&old, own, "read_exact (UnexpectedEof)");
+                    }
+                }
+            }
+            Op::IoReadToEnd | Op::IoReadToString | Op::IoBytes | Op::IoReadUntil | Op::IoReadLine | Op::IoReadVectored => {
+                may_alloc = true; // destination Vec/String of the caller grows inside the call
+                self.read_provided(st, own);
+            }
+            Op::IoFillBuf | Op::IoFillConsume => {
+                let r = self.t_fill_buf();
+                if let Some(s) = self.must(r, "fill_buf") {
+                    let _ = write!(self.trace.line(), " r={}", s.len());
+                    let old = self.model_vec();
+                    if s.len() > old.len() || s[..] != old[..s.len()] {
+                        self.fail(own, format!("fill_buf returned {:?} which is not a prefix of the contents {:?}", s, old));
+                    } else if s.is_empty() && !old.is_empty() {
+                        self.fail(own, format!("fill_buf returned an empty slice although {} bytes are buffered", old.len()));
+                    }
+                    if s.len() < old.len() && !s.is_empty() {
+                        // contents wrap: a second fill_buf after consuming the first part must
+                        // return the rest
+                    }
+                    if st.op == Op::IoFillConsume && self.fail.is_none() {
+                        let k = match st.b % 4 {
+                            0 => s.len(),
+                            1 => s.len() / 2,
+                            2 => s.len() + 1 + st.a % 3,
+                            _ => st.a,
+                        };
+                        self.consume(k, own);
+                        if k == s.len() && s.len() < old.len() && self.fail.is_none() {
+                            let r = self.t_fill_buf();
+                            if let Some(s2) = self.must(r, "fill_buf") {
+                                self.stats.probe(Probe::IoFillBufSecondSegment);
+                                if s2.is_empty() || s2[..] != old[s.len()..s.len() + s2.len().min(old.len() - s.len())] {
+                                    self.fail(own, format!("second fill_buf returned {:?}, the rest of the contents is {:?}", s2, &old[s.len()..]));
+                                }
+                            }
+                        }
+                    }
+                }
+            }
+            Op::IoConsume => {
+                argclass = lencls(st.a, pre_len, N);
+                self.consume(st.a, own);
+            }
+            Op::IoCopyOut => {
+                let old = self.model_vec();
+                let mut down = FaultyWriter { received: Vec::new(), plan: st.vals.clone(), pi: 0, shorts: 0, interrupts: 0, streak: 0 };
+                let r = self.call(|b| std::io::copy(b, &mut down).map_err(|e| e.kind()));
+                if down.shorts > 0 {
+                    self.stats.probe(Probe::IoShortWrite);
+                }
+                if down.interrupts > 0 {
+                    self.stats.probe(Probe::IoCopyRetryInterrupted);
+                }
+                if let Some(r) = r {
+                    let rec = &down.received;
+                    if rec.len() > old.len() || rec[..] != old[..rec.len()] {
+                        self.fail(own, format!("downstream received {:?} which is not a prefix of the contents {:?}", rec, old));
+                    }
+                    match r {
+                        Ok(n) => {
+                            let _ = write!(self.trace.line(), " r={n}");
+                            if n as usize != old.len() || rec.len() != old.len() {
+                                self.fail(own, format!("io::copy out of the buffer reported {n} bytes of {}", old.len()));
+                            }
+                            self.model.clear();
+                        }
+                        Err(_) => {
+                            let _ = write!(self.trace.line(), " r=err");
+                            self.resync_suffix(&old, own, "io::copy (downstream failed)");
+                            if rec.len() + self.model.len() > old.len() {
+                                self.fail(own, "after a failed io::copy, delivered + remaining bytes exceed the old contents".into());
+                            }
+                        }
+                    }
+                }
+            }
+            Op::IoStall => {}
+            _ => self.fail(cls::HARNESS, format!("op {} is not part of the io scenario", st.op.name())),
+        }
+
+        // ---- post-step: contents vs byte model, through every read-only view
+        if self.fail.is_none() {
+            let want = self.model_vec();
+            let got: Vec<u8> = self.buf.iter().copied().collect();
+            let (s0, s1) = self.buf.as_slices();
+            let cat: Vec<u8> = s0.iter().chain(s1.iter()).copied().collect();
+            if got != want || cat != want || self.buf.len() != want.len() {
+                self.fail(own | cls::CONTENTS, format!("after {}: contents {:?} (len {}) != byte model {:?}", st.op.name(), got, self.buf.len(), want));
+            }
+        }
+        if self.fail.is_none() && !may_alloc && self.allocs > 0 && !self.panicked {
+            self.fail(cls::ALLOC, format!("{} performed {} heap allocation(s) of its own", st.op.name(), self.allocs));
+        }
+        {
+            let line = self.trace.line();
+            let _ = write!(line, " c=[");
+            for b in self.model.iter() {
+                let _ = write!(line, "{b},");
+            }
+            line.push(']');
+            self.trace.commit();
+        }
+        if pre_len > 0 || !self.model.is_empty() {
+            self.stats.cell([N as u64 + 1000, pre_layout.0 as u64, pre_layout.1 as u64, st.op as u64, argclass, self.transport as u64]);
+        }
+        if self.fail.is_none() {
+            self.poison();
+        }
+    }
+
+    fn consume(&mut self, k: usize, own: u32) {
+        let len = self.model.len();
+        if k > len {
+            self.stats.probe(Probe::IoConsumeOverLen);
+        }
+        if self.t_consume(k).is_some() {
+            for _ in 0..k.min(len) {
+                self.model.pop_front();
+            }
+        }
+        let _ = own;
+    }
+
+    /// After an operation whose std contract leaves the consumed amount open: the remaining
+    /// contents must be a suffix of `old`; the model is resynchronised to it.
+    fn resync_suffix(&mut self, old: &[u8], own: u32, what: &str) {
+        let got: Vec<u8> = self.buf.iter().copied().collect();
+        if got.len() > old.len() || got[..] != old[old.len() - got.len()..] {
+            self.fail(own, format!("after {what}: contents {:?} are not a suffix of the previous contents {:?}", got, old));
+        }
+        self.model = got.into_iter().collect();
+    }
+
+    fn read_provided(&mut self, st: &Step, own: u32) {
+        let old = self.model_vec();
+        match st.op {
+            Op::IoReadToEnd => {
+                let mut v: Vec<u8> = vec![7, 7];
+                let r = self.call(|b| std::io::Read::read_to_end(b, &mut v).map_err(|e| e.to_string()));
+                if let Some(r) = r {
+                    match r {
+                        Ok(n) => {
+                            if n != old.len() || v[2..] != old[..] {
+                                self.fail(own, format!("read_to_end returned {n} / {:?}, contents were {:?}", &v[2..], old));
+                            }
+                            self.model.clear();
+                        }
+                        Err(e) => self.fail(own, format!("read_to_end returned an error: {e}")),
+                    }
+                }
+            }
+            Op::IoReadToString => {
+                let mut s = String::from("ab");
+                let r = self.call(|b| std::io::Read::read_to_string(b, &mut s).map_err(|e| e.kind()));
+                if let Some(r) = r {
+                    let valid = std::str::from_utf8(&old).is_ok();
+                    match r {
+                        Ok(n) => {
+                            if !valid || n != old.len() || s.as_bytes()[2..] != old[..] {
+                                self.fail(own, format!("read_to_string returned Ok({n}) for contents {:?}", old));
+                            }
+                            self.model.clear();
+                        }
+                        Err(k) => {
+                            if valid {
+                                self.fail(own, format!("read_to_string failed ({k:?}) on valid UTF-8 contents {:?}", old));
+                            } else {
+                                self.resync_suffix(&old, own, "read_to_string (invalid UTF-8)");
+                            }
+                        }
+                    }
+                }
+            }
+            Op::IoBytes => {
+                let k = st.a;
+                let r = self.call(|b| {
+                    let mut out = Vec::new();
+                    for x in std::io::Read::bytes(&mut *b).take(k) {
+                        match x {
+                            Ok(v) => out.push(v),
+                            Err(e) => return Err(e.to_string()),
+                        }
+                    }
+                    Ok(out)
+                });
+                if let Some(r) = r {
+                    match r {
+                        Ok(v) => {
+                            let want = k.min(old.len());
+                            if v[..] != old[..want] {
+                                self.fail(own, format!("bytes().take({k}) yielded {:?}, expected {:?}", v, &old[..want]));
+                            }
+                            for _ in 0..want {
+                                self.model.pop_front();
+                            }
+                        }
+                        Err(e) => self.fail(own, format!("bytes() yielded an error: {e}")),
+                    }
+                }
+            }
+            Op::IoReadUntil => {
+                let delim = (st.a % 251) as u8;
+                let mut v: Vec<u8> = Vec::new();
+                let r = self.call(|b| std::io::BufRead::read_until(b, delim, &mut v).map_err(|e| e.to_string()));
+                if let Some(r) = r {
+                    let want = match old.iter().position(|x| *x == delim) {
+                        Some(p) => p + 1,
+                        None => old.len(),
+                    };
+                    match r {
+                        Ok(n) => {
+                            if n != want || v[..] != old[..want] {
+                                self.fail(own, format!("read_until({delim}) returned {n} / {:?}, expected {:?}", v, &old[..want]));
+                            }
+                            for _ in 0..want {
+                                self.model.pop_front();
+                            }
+                        }
+                        Err(e) => self.fail(own, format!("read_until returned an error: {e}")),
+                    }
+                }
+            }
+            Op::IoReadLine => {
+                let mut s = String::new();
+                let r = self.call(|b| std::io::BufRead::read_line(b, &mut s).map_err(|e| e.kind()));
+                if let Some(r) = r {
+                    let want = match old.iter().position(|x| *x == b'\n') {
+                        Some(p) => p + 1,
+                        None => old.len(),
+                    };
+                    let valid = std::str::from_utf8(&old[..want]).is_ok();
+                    match r {
+                        Ok(n) => {
+                            if !valid || n != want || s.as_bytes() != &old[..want] {
+                                self.fail(own, format!("read_line returned Ok({n}) {:?} for contents {:?}", s, old));
+                            }
+                            for _ in 0..want {
+                                self.model.pop_front();
+                            }
+                        }
+                        Err(k) => {
+                            if valid {
+                                self.fail(own, format!("read_line failed ({k:?}) on valid UTF-8 {:?}", &old[..want]));
+                            } else {
+                                self.resync_suffix(&old, own, "read_line (invalid UTF-8)");
+                            }
+                        }
+                    }
+                }
+            }
+            _ => {
+                // read_vectored
+                let (k1, k2) = (st.a, st.b);
+                let mut d1 = vec![0u8; k1];
+                let mut d2 = vec![0u8; k2];
+                let r = self.call(|b| {
+                    let mut ios = [std::io::IoSliceMut::new(&mut d1), std::io::IoSliceMut::new(&mut d2)];
+                    std::io::Read::read_vectored(b, &mut ios).map_err(|e| e.to_string())
+                });
+                if let Some(r) = r {
+                    match r {
+                        Ok(n) => {
+                            let cat: Vec<u8> = d1.iter().chain(d2.iter()).copied().collect();
+                            if n > old.len() || n > cat.len() || cat[..n] != old[..n] || (n == 0 && !old.is_empty() && !cat.is_empty()) {
+                                self.fail(own, format!("read_vectored returned {n} / {:?}, contents were {:?}", &cat[..n.min(cat.len())], old));
+                            }
+                            for _ in 0..n.min(self.model.len()) {
+                                self.model.pop_front();
+                            }
+                        }
+                        Err(e) => self.fail(own, format!("read_vectored returned an error: {e}")),
+                    }
+                }
+            }
+        }
+    }
+
+    fn eio_write_all(&mut self, data: &[u8]) {
+        let _ = data;
+        match self.transport {
+            #[cfg(feature = "eio")]
+            1 => {
+                let r = self.call(|b| embedded_io::Write::write_all(b, data).is_ok());
+                if let Some(ok) = r {
+                    if !ok {
+                        self.fail(cls::EIO, "embedded_io write_all failed".into());
+                    }
+                    self.model_write(data);
+                }
+            }
+            #[cfg(feature = "eioa")]
+            2 => {
+                let r = self.call(|b| exec1::poll_once(embedded_io_async::Write::write_all(b, data)).map(|r| r.is_ok()));
+                if let Some(r) = r {
+                    match r {
+                        Some(true) => {}
+                        Some(false) => self.fail(cls::EIO, "embedded_io_async write_all failed".into()),
+                        None => self.fail(cls::EIO, "embedded_io_async write_all returned Poll::Pending".into()),
+                    }
+                    self.model_write(data);
+                }
+            }
+            _ => {}
+        }
+    }
+
+    fn eio_read_exact(&mut self, dst: &mut [u8]) -> Option<Result<(), ()>> {
+        let _ = &dst;
+        match self.transport {
+            #[cfg(feature = "eio")]
+            1 => self.call(|b| embedded_io::Read::read_exact(b, dst).map_err(|_| ())),
+            #[cfg(feature = "eioa")]
+            2 => {
+                let r = self.call(|b| exec1::poll_once(embedded_io_async::Read::read_exact(b, dst)).map(|r| r.map_err(|_| ())));
+                match r {
+                    Some(Some(x)) => Some(x),
+                    Some(None) => {
+                        self.fail(cls::EIO, "embedded_io_async read_exact returned Poll::Pending".into());
+                        None
+                    }
+                    None => None,
+                }
+            }
+            _ => None,
+        }
+    }
+
+    /// Seam S3 for bytes: every byte value is a legal element, so the only detector is the
+    /// two-run comparison of trace digests.
+    fn poison(&mut self) {
+        if self.garbage == Garbage::None || N == 0 {
+            return;
+        }
+        let (start, size, ptr) = self.buf.verif_raw_parts();
+        if size >= N {
+            return;
+        }
+        for slot in 0..N {
+            let rel = (slot + N - start) % N;
+            if rel < size {
+                continue;
+            }
+            let b: u8 = match self.garbage {
+                Garbage::Zero => 0,
+                Garbage::Ones => 0xFF,
+                Garbage::X5A => 0x5A,
+                _ => self.grng.next_u64() as u8,
+            };
+            // SAFETY: slot < N and outside the occupied range.
+            unsafe { std::ptr::write(ptr.add(slot) as *mut u8, b) };
+            self.stats.poisons += 1;
+        }
+        self.stats.probe(Probe::PoisonApplied);
+    }
+}
+
+fn lencls(k: usize, reference: usize, n: usize) -> u64 {
+    if k == 0 {
+        0
+    } else if k < reference {
+        1
+    } else if k == reference {
+        2
+    } else if k <= n {
+        3
+    } else {
+        4
+    }
+}
+
+// ------------------------------------------------------------------ generation
+const PRODUCER: &[Op] = &[Op::IoWrite, Op::IoWriteAll, Op::IoWriteVectored, Op::IoWriteFmt, Op::IoFlush, Op::IoCopyIn, Op::IoExtendRef];
+const CONSUMER: &[Op] = &[
+    Op::IoRead, Op::IoReadExact, Op::IoReadToEnd, Op::IoReadToString, Op::IoReadVectored, Op::IoBytes, Op::IoFillBuf, Op::IoConsume, Op::IoFillConsume, Op::IoReadUntil,
+    Op::IoReadLine, Op::IoTake, Op::IoCopyOut,
+];
+const COMMON_P: &[Op] = &[Op::IoWrite, Op::IoWriteAll, Op::IoFlush];
+const COMMON_C: &[Op] = &[Op::IoRead, Op::IoReadExact, Op::IoFillBuf, Op::IoConsume, Op::IoFillConsume];
+
+pub fn io_layouts() -> Vec<(usize, usize, usize)> {
+    let mut v = Vec::new();
+    for &n in IO_NS.iter() {
+        let rots: Vec<usize> = if n <= 8 { (0..n.max(1)).collect() } else { vec![0, 1, n / 2, n - 2, n - 1] };
+        let lens: Vec<usize> = if n <= 8 { (0..=n).collect() } else { vec![0, 1, 2, n / 2, n - 1, n] };
+        for r in &rots {
+            for s in &lens {
+                v.push((n, *r, *s));
+            }
+        }
+    }
+    v
+}
+
+fn io_len(rng: &mut Rng, reference: usize, n: usize) -> usize {
+    let c = [0, 1, reference.wrapping_sub(1), reference, reference + 1, n.wrapping_sub(1), n, n + 1, n + 2, 2 * n + 1];
+    let k = if rng.below(10) < 6 { *rng.pick(&c) } else { rng.below(2 * n as u64 + 2) as usize };
+    if k > 2 * n + 1 {
+        0
+    } else {
+        k
+    }
+}
+
+fn peer_plan(rng: &mut Rng) -> Vec<u32> {
+    let l = rng.below(6) as usize;
+    (0..l)
+        .map(|_| {
+            let kind = rng.weighted(&[2, 2, 2, 2, 2, 3, 1, 6]) as u32;
+            kind + 8 * rng.below(32) as u32
+        })
+        .collect()
+}
+
+pub fn gen_io(seed: u64, prop: &str, run: u64) -> Script {
+    let common_only = prop == "C16";
+    let pid = prop.bytes().fold(0u64, |a, b| a * 131 + b as u64);
+    let mut rng = Rng::new(mix(&[seed, 2, pid, run]));
+    let lays = io_layouts();
+    let (prod, cons): (&[Op], &[Op]) = if common_only { (COMMON_P, COMMON_C) } else { (PRODUCER, CONSUMER) };
+    let focus_all: Vec<Op> = prod.iter().chain(cons.iter()).copied().collect();
+    let stratum = run % (lays.len() as u64 * focus_all.len() as u64);
+    let (n, r, s) = lays[(stratum % lays.len() as u64) as usize];
+    let focus = focus_all[(stratum / lays.len() as u64) as usize];
+    let mut steps = Vec::new();
+    let mut len = 0usize;
+    // layout prelude: rotate by r, then fill to s
+    if n > 0 {
+        if r > 0 {
+            steps.push(Step::new(Op::IoLayout).a(r).b(r));
+        }
+        if s > 0 {
+            steps.push(Step::new(Op::IoWrite).a(s));
+            len = s;
+        }
+    }
+    let tail = *rng.pick(&[0usize, 0, 1, 2, 3, 4, 6, 8, 12, 20, 30]);
+    // scheduler: who runs next; stalls make one side run several times in a row
+    let mut side = rng.below(2);
+    let mut stall = 0u32;
+    for t in 0..=tail {
+        let op = if t == 0 {
+            focus
+        } else {
+            if stall == 0 {
+                side = rng.below(2);
+                stall = if rng.below(4) == 0 { 1 + rng.below(5) as u32 } else { 0 };
+            } else {
+                stall -= 1;
+            }
+            if side == 0 {
+                *rng.pick(prod)
+            } else {
+                *rng.pick(cons)
+            }
+        };
+        let mut st = Step::new(op);
+        let free = n - len.min(n);
+        match op {
+            Op::IoWrite | Op::IoWriteAll | Op::IoWriteFmt | Op::IoExtendRef => {
+                st.a = io_len(&mut rng, free, n);
+                len = (len + st.a).min(n);
+            }
+            Op::IoWriteVectored => {
+                st.a = io_len(&mut rng, free, n) / 2;
+                st.b = rng.below(n as u64 + 2) as usize;
+                st.c = rng.below(3) as usize;
+                len = n.min(len + st.a + st.b + st.c);
+            }
+            Op::IoCopyIn => {
+                st.a = if rng.below(4) == 0 { 8192 + rng.below(9000) as usize } else { io_len(&mut rng, free, n) * (1 + rng.below(3) as usize) };
+                st.vals = peer_plan(&mut rng);
+                len = (len + st.a).min(n);
+            }
+            Op::IoRead | Op::IoReadExact | Op::IoBytes | Op::IoConsume => {
+                st.a = io_len(&mut rng, len, n);
+                len = len.saturating_sub(st.a);
+            }
+            Op::IoTake => {
+                st.a = io_len(&mut rng, len, n);
+                st.b = io_len(&mut rng, len, n);
+                len = len.saturating_sub(st.a.min(st.b));
+            }
+            Op::IoReadVectored => {
+                st.a = io_len(&mut rng, len, n) / 2;
+                st.b = rng.below(n as u64 + 2) as usize;
+                len = len.saturating_sub(st.a + st.b);
+            }
+            Op::IoReadToEnd | Op::IoReadToString | Op::IoCopyOut => {
+                if op == Op::IoCopyOut {
+                    st.vals = peer_plan(&mut rng);
+                }
+                len = 0;
+            }
+            Op::IoFillConsume => {
+                st.a = rng.below(n as u64 + 3) as usize;
+                st.b = rng.below(4) as usize;
+                len /= 2;
+            }
+            Op::IoReadUntil => {
+                st.a = rng.below(251) as usize;
+                len /= 2;
+            }
+            Op::IoReadLine => len /= 2,
+            _ => {}
+        }
+        steps.push(st);
+    }
+    Script {
+        scenario: Scenario::Io,
+        n,
+        origin: format!("seed={} prop={} run={} layout=({},{},{}) focus={}", seed, prop, run, n, r, s, focus.name()),
+        garbage: Garbage::None,
+        garbage_seed: rng.next_u64(),
+        boxed: rng.below(2) == 0,
+        transport: 0,
+        steps,
+    }
+}
